@@ -20,8 +20,13 @@ View == rvars
 \* the uploader re-cleans the work-tree file when the local object is gone
 InWorktree == IF SmudgedWT THEN {TreeOf(br[head])[p] : p \in Paths} \cap Oids ELSE {}
 
+\* objects an allowed incomplete push went without
+Excused == UNION {hist[i].lost : i \in {j \in DOMAIN hist : hist[j].a = "push"}}
+
 \* D: branches deleted on the remote by the same `git push` (`git push origin :b ...`)
-Push(S, mode, D) ==
+\* allow: lfs.allowincompletepush for this push - objects available nowhere are then excused (the push may
+\* go through without them), everything that is available must still be uploaded
+Push(S, mode, D, allow) ==
   /\ mode \in Modes /\ S # {} /\ \A b \in S : br[b] # NoCommit
   /\ (mode # "git-push" => D = {}) /\ D \cap S = {} /\ \A b \in D : rr[b] # NoCommit
   /\ (mode = "git-push" => \A b \in S : br[b] # rr[b] /\ (rr[b] = NoCommit \/ rr[b] \in Anc(br[b], commits)))   \* fast-forward or new
@@ -29,35 +34,45 @@ Push(S, mode, D) ==
   /\ LET exclude == IF mode = "lfs-push-all" THEN {}
                     ELSE {rt[b] : b \in Branches} \cup (IF mode = "git-push" THEN {rr[b] : b \in S} ELSE {})
          toScan  == ReachSet({br[b] : b \in S}, commits) \ ReachSet(exclude, commits)
-         need    == PtrOids(toScan, commits)
+         \* the scan lists pointer blobs the excluded side does not have: an object that a commit the remote
+         \* already knows references as well is taken to be there already (it is, by RemoteComplete, unless an
+         \* allowed incomplete push excused it earlier)
+         need    == PtrOids(toScan, commits) \ PtrOids(ReachSet(exclude, commits), commits)
+         \* ... but how far back into the excluded history Git looks when it leaves out shared blobs is Git's
+         \* business (only the boundary commits' own trees are certain): objects of the scanned commits that
+         \* also occur further back MAY be scanned, uploaded, or found missing
+         mayNeed == PtrOids(toScan, commits) \ need
+         ambiguous == (mayNeed \ server) # {}
          have    == server \cup LocalValid
          missing == need \ have
          recov   == missing \cap InWorktree \cap {o \in Oids : local[o] = "absent"}
-         verdict == IF missing = {} THEN "ok" ELSE IF missing = recov THEN "either" ELSE "fail"
-         upl     == (need \cap LocalValid) \ server
+         verdict == IF missing = {} THEN "ok" ELSE IF missing = recov THEN "either" ELSE IF allow THEN "incomplete" ELSE "fail"
+         upl     == ((need \cup mayNeed) \cap LocalValid) \ server
      IN \* the specification's own transition: the deterministic cases; "either" takes the successful branch
-        /\ server' = IF verdict = "fail" THEN server ELSE server \cup need
+        /\ server' = IF verdict = "fail" THEN server ELSE IF verdict = "incomplete" THEN server \cup (need \cap LocalValid) ELSE server \cup need
         /\ local'  = IF verdict = "either" THEN [o \in Oids |-> IF o \in recov THEN "valid" ELSE local[o]] ELSE local
         /\ IF mode = "git-push" /\ verdict # "fail"
              THEN /\ rr' = [b \in Branches |-> IF b \in S THEN br[b] ELSE IF b \in D THEN NoCommit ELSE rr[b]]
                   /\ rt' = [b \in Branches |-> IF b \in S THEN br[b] ELSE IF b \in D THEN NoCommit ELSE rt[b]]
                   /\ everRemote' = everRemote \cup ReachSet({br[b] : b \in S}, commits)
              ELSE UNCHANGED <<rr, rt, everRemote>>
-        /\ Log([a |-> "push", mode |-> mode, refs |-> S, deletes |-> D, verdict |-> verdict, need |-> need, missing |-> missing,
+        /\ Log([a |-> "push", mode |-> mode, refs |-> S, deletes |-> D, allow |-> allow, lost |-> (IF verdict = "incomplete" THEN missing \ recov ELSE {}), verdict |-> verdict, need |-> need, missing |-> missing, ambiguous |-> ambiguous,
                 mayUpload |-> upl, serverBefore |-> server,
-                remoteNeeds |-> PtrOids(everRemote', commits), rrAfter |-> rr'])
+                remoteNeeds |-> PtrOids(everRemote', commits) \ (Excused \cup (IF verdict = "incomplete" THEN missing \ recov ELSE {})),
+                rrAfter |-> rr'])
   /\ UNCHANGED <<commits, br, head>>
 
 Next == \/ \E b \in Branches, p \in Paths, blob \in Blobs, g \in Ages : Commit(b, p, blob, g)
         \/ \E b, o \in Branches : Merge(b, o)
         \/ \E o \in Oids, h \in {"absent", "corrupt"} : DamageLocal(o, h)
         \/ \E b \in Branches : OtherPush(b)
-        \/ \E S \in SUBSET Branches, m \in Modes, D \in SUBSET Branches : Push(S, m, D)
+        \/ \E S \in SUBSET Branches, m \in Modes, D \in SUBSET Branches, al \in BOOLEAN : Push(S, m, D, al)
 Spec == RepoInit /\ [][Next]_vars
 
+RemoteCompleteX == PtrOids(everRemote, commits) \subseteq server \cup Excused
 \* C03 on the design: whatever became reachable on the remote has its objects on the server.
 \* (A failed git-push changes no remote ref: built into Push.)
-RefsOnlyAfterObjects == \A b \in Branches : rr[b] # NoCommit => PtrOids(Anc(rr[b], commits), commits) \subseteq server
+RefsOnlyAfterObjects == \A b \in Branches : rr[b] # NoCommit => PtrOids(Anc(rr[b], commits), commits) \subseteq server \cup Excused
 
 EmitEdge == (Emit /\ hist'[Len(hist')].a = "push") => CSVWrite("%1$s", <<ToJson(hist')>>, IOEnv.OUT)
 =============================================================================
